@@ -82,10 +82,13 @@ def export_all(item):
     cs, le, ile, suc, rsuc, rcs, rle = [], [], [], [], [], [], []
     for t in range(N):
         e = E[t]
-        cs.append(int(bool(code.in_codespace(e))))
-        le.append(bits(code.logical_errors(e)))
-        ile.append(int(bool(code.is_logical_error(e))))
-        suc.append(int(bool(code.is_success(e))))
+        # the operator in the array types callers use
+        ev = e if t % 4 == 0 else (e.astype(np.int64) if t % 4 == 1 else
+                                   (e.astype(np.uint64) if t % 4 == 2 else e.astype(np.int8)))
+        cs.append(int(bool(code.in_codespace(ev))))
+        le.append(bits(code.logical_errors(ev)))
+        ile.append(int(bool(code.is_logical_error(ev))))
+        suc.append(int(bool(code.is_success(ev))))
         em.e = e
         r = run_once(code, em, dec, 0.1)
         rsuc.append(int(bool(r['success'])))
